@@ -235,6 +235,7 @@ var Owned = map[string]map[string]bool{
 	"C02": set(FExtra, FOpZero),
 	"C03": set(FOrder),
 	"C04": set(FList, FAddErr, FRmErr, FPanic),
+	"C07": set(FList, FAddErr, FRmErr, FPanic, FWedge), // reader-interleaving part: API results against the sequential model
 	"C08": set(FName),
 	"C09": set(FList, FRmErr, FAddErr, FPanic, FMissing, FExtra),
 	"C10": set(FErrors),
